@@ -81,11 +81,13 @@ SCAN_ASSUME = [
     "R15: fn-pointer parameter of Parser::read_scoped_vars rewritten to impl Fn; R14: `break value` rewritten to an assigned variable; R16/R17 as documented",
     "the crlf cargo feature is off (default build); usize is 64 bit",
 ]
+C12_LOAD = ("unit load: Loader::parse_with_parser never reads a file that is already being read (duplicate-free stack `loading`, precondition re-established at the recursive call by the include-cycle check of fix 531f21f, D16); "
+    "that the recursion ends is then ASSUMED from the finiteness of the files on disk (no decreases clause: every level reads a file that is not on the stack)")
 PROPS["C12"] = {
     "units": ["scan", "load", "canon", "perr", "run"],
     "probes": {"scan": ["parse::Parser::read", "parse::Parser::read_eval", "depfile::parse", "scanner::Scanner::read"], "load": ["load::Loader::path"], "canon": ["canon::canonicalize_path"], "perr": ["scanner::Scanner::format_parse_error"], "run": ["main::main"]},
     "level": "proof",
-    "assumptions": SCAN_ASSUME + ["canonicalize_path's two panics are preconditions (non-empty, <= 60 components; unit canon) that Loader::evaluate_path cannot discharge: KNOWN FINDING D2/D3 (unit load).  The other callers (Work::lookup for command-line names, record_finished for reported deps, db::read_path) are not checked for these two preconditions",
+    "assumptions": SCAN_ASSUME + [C12_LOAD, "canonicalize_path's two panics are preconditions (non-empty, <= 60 components; unit canon) that Loader::evaluate_path cannot discharge: KNOWN FINDING D2/D3 (unit load).  The other callers (Work::lookup for command-line names, record_finished for reported deps, db::read_path) are not checked for these two preconditions",
         "unit perr: Scanner::format_parse_error never panics and terminates for every buffer < 2^62 bytes and every error offset <= buffer length (that parse errors carry such an offset is the scanner invariant ofs <= len, not re-proved at the closure in load::parse_with_parser); slice::split is a trusted wrapper (lengths add up); the byte model of str is trusted (strb.pre.rs); from_utf8_unchecked on a manifest that is not UTF-8 is UB that the model hides (listed)",
         "NOT covered: the n2: error: plumbing in load.rs/run.rs/main.rs",
         "allocation failure, stack overflow on recursive includes and file I/O are outside the contract language"],
@@ -254,7 +256,7 @@ LEVEL_TEXT = {
     },
     "C12": {
         "text": "Unbounded proof (Verus) on the real text of scanner.rs (Scanner::{get,peek,next,back,read,skip,skip_spaces,expect}), all of parse.rs's Parser (read, read_vardef, read_scoped_vars, read_rule, read_pool, read_unevaluated_paths_to, read_build, read_default, skip_comment, read_ident, read_eval, read_simple_varname, read_escape, skip_spaces) and depfile.rs (skip_spaces, read_path, parse): every `get_unchecked` (rewritten to a checked index, R3) is in bounds at every call site for every byte string, the scanner's three panics are unreachable, every slice(start,end) has start <= end <= len, and every loop carries a decreases measure (buffer length minus offset) -- so for all inputs the manifest/depfile readers terminate with Ok or a ParseError and never read outside the buffer.",
-        "note": "Found D1 (read past the NUL in read_vardef) and D4 (format_parse_error sliced inside a character) -- both fixed in /repo. canonicalize_path's panics (D2, D3) are a KNOWN FINDING at Loader::evaluate_path. main.rs turns every Err of run() into `n2: error:` and status 1 (unit run); that load errors reach run() as Err is `?` in build (unit run) and read (unit load). Trusted: Scanner::new stub, utf-8/str wrappers, slice::split wrapper.",
+        "note": "Found D1 (read past the NUL in read_vardef), D4 (format_parse_error sliced inside a character) and D16 (include cycle overflowed the stack) -- all fixed in /repo. canonicalize_path's panics (D2, D3) are a KNOWN FINDING at Loader::evaluate_path. main.rs turns every Err of run() into `n2: error:` and status 1 (unit run); that load errors reach run() as Err is `?` in build (unit run) and read (unit load). Trusted: Scanner::new stub, utf-8/str wrappers, slice::split wrapper.",
         "design_ref": "DESIGN.md §6 C12",
     },
     "C15": {
